@@ -32,11 +32,12 @@ package sync
 // buffer that was Put earlier; Put resets the buffer and keeps it for reuse.
 //@ func (*BufferPool).Get()
 //@   props C11
-//@   trusted "sync.Pool: returns some buffer, possibly one that was Put earlier (nothing is assumed about its storage)"
+//@   trusted "sync.Pool: returns an empty buffer owned by the caller until Put; modelled as a new buffer object whose STORAGE may be old (nothing is assumed about its storage)"
 //@   nopanic
-//@   defines result != nil
+//@   defines result != nil && fresh(result) && result.n == 0 && !result.pooled
 //@ func (*BufferPool).Put(b)
 //@   props C11
 //@   trusted "sync.Pool: resets the buffer and keeps it for reuse"
 //@   nopanic
 //@   modifies *b
+//@   defines b.pooled
